@@ -12,6 +12,7 @@ from .common import get_interp, show
 from .cloudworld import CloudWorld, replay_scenario, replay_judge, validate_samples  # noqa: F401
 
 PROPERTY = 'C08'
+REPLAY_RETRIES = 2
 LEVEL = 'other'
 
 
